@@ -412,6 +412,10 @@ func (x *Exec) applyContract(fr *Frame, st *State, c *Contract, key string, recv
 				}
 			}
 			if err := x.guard(fmt.Sprintf("%s:%d modifies", cl.File, cl.Line), func() {
+				if me.Op == "call" && me.Args[0].Op == "ident" && me.Args[0].Name == "hdr" {
+					x.havocLoc(st, EV{V: ecMod.evalLoc(me.Args[1])}, key)
+					return
+				}
 				v := ecMod.Eval(me)
 				switch v.V.(type) {
 				case *SliceV, *PtrV:
@@ -590,6 +594,10 @@ func (x *Exec) havocLoc(st *State, loc EV, hint string) {
 			n.Leaves[l.Key] = x.CopyC(os.Leaves[l.Key], v.Off, fresh, v.Off, v.Len)
 		}
 		st.mem[v.Obj] = n
+		for _, no := range v.Obj.Nested {
+			sh := tb.BVi(64, nestShift)
+			x.havocLoc(st, EV{V: &SliceV{Obj: no, IsNil: tb.False(), Off: tb.BVBin("bvshl", v.Off, sh), Len: tb.BVBin("bvshl", v.Len, sh), Elem: no.Elem}}, hint)
+		}
 	case *PtrV:
 		if v.Obj.Dummy {
 			return
@@ -598,6 +606,24 @@ func (x *Exec) havocLoc(st *State, loc EV, hint string) {
 			aobj, base := x.arrayField(st, v)
 			at := v.Elem.Underlying().(*types.Array)
 			x.havocLoc(st, EV{V: &SliceV{Obj: aobj, IsNil: tb.False(), Off: base, Len: tb.BVi(64, at.Len()), Cap: tb.BVi(64, at.Len()), Elem: at.Elem()}}, hint)
+			return
+		}
+		if v.Obj.Array && v.Idx == nil {
+			// the whole backing array (backing(s)): every cell, and the cells of slices stored in its elements
+			var all func(o *Object)
+			all = func(o *Object) {
+				os := x.objState(st, o)
+				n := &ObjState{Leaves: map[string]*Content{}, ALen: os.ALen}
+				leaves, _ := leafPaths(o.Elem)
+				for _, l := range leaves {
+					n.Leaves[l.Key] = x.ContentBase("hv."+shortKey(hint)+l.Key, l.Sort)
+				}
+				st.mem[o] = n
+				for _, no := range o.Nested {
+					all(no)
+				}
+			}
+			all(v.Obj)
 			return
 		}
 		if v.Obj.Array {
@@ -852,7 +878,14 @@ func (x *Exec) checkLoopFrame(fr *Frame, b *ssa.BasicBlock, ord int, lc *LoopCon
 				_ = x.guard("loop modifies", func() {
 					ec := x.loopCtx(fr, b, st, false)
 					if o := objOf(ec.Eval(me).V); o != nil {
-						modified[o] = true
+						var all func(o *Object)
+						all = func(o *Object) {
+							modified[o] = true
+							for _, no := range o.Nested {
+								all(no)
+							}
+						}
+						all(o)
 					}
 				})
 			}
@@ -1121,6 +1154,15 @@ func (x *Exec) copyCells(st *State, dst, src *SliceV, n *Term) {
 		nn.Leaves[key] = x.CopyC(c, dst.Off, sc, src.Off, n)
 	}
 	st.mem[dst.Obj] = nn
+	// slices stored inside the copied elements: their cells move along (blocks are contiguous in the shared backing object)
+	for key, dn := range dst.Obj.Nested {
+		sn := src.Obj.Nested[key]
+		if sn == nil {
+			continue
+		}
+		sh := x.tb.BVi(64, nestShift)
+		x.copyCells(st, &SliceV{Obj: dn, Off: x.tb.BVBin("bvshl", dst.Off, sh)}, &SliceV{Obj: sn, Off: x.tb.BVBin("bvshl", src.Off, sh)}, x.tb.BVBin("bvshl", n, sh))
+	}
 }
 
 // appendModel: the result is always a fresh object holding old ++ new (assumption: no other live
